@@ -70,8 +70,50 @@ func cmdCheck(prop, tier string, keep bool) int {
 			}
 		}
 	}
+	// A contract whose target is an unexported, named function that no longer exists (inlined or
+	// deleted by a refactoring, and not recognisably renamed): its obligations cannot be generated.
+	// The callers are verified with whatever code replaced the call, so this is reported as
+	// UNDECIDED, not as a violation. Exported functions and closures stay strict.
+	removedHelper := func(fn string) bool {
+		if _, ok := p.fns[fn]; ok || strings.Contains(fn, "$") || isAssumedContract(p, fn) {
+			return false
+		}
+		i := strings.LastIndex(fn, ".")
+		if i < 0 || i+1 >= len(fn) {
+			return false
+		}
+		c := fn[i+1]
+		return !(c >= 'A' && c <= 'Z')
+	}
+	lenient := func(obl string) bool {
+		owner := obl
+		if i := strings.Index(obl, "/"); i >= 0 {
+			owner = obl[:i]
+			rest := obl[i+1:]
+			if strings.HasPrefix(rest, "pre:") || strings.HasPrefix(rest, "owns:callee_requires_lock:") {
+				callee := strings.TrimPrefix(strings.TrimPrefix(rest, "pre:"), "owns:callee_requires_lock:")
+				if removedHelper(qualifyShort(p, callee)) {
+					return true
+				}
+				// "(*limit.VegasLimit).shouldProbe.inv(l)" -> strip the clause label
+				for j := len(callee); j > 0; j-- {
+					if callee[j-1] == '.' {
+						if removedHelper(qualifyShort(p, callee[:j-1])) {
+							return true
+						}
+					}
+				}
+			}
+		}
+		return removedHelper(owner)
+	}
 	for _, f := range pr.Funcs {
 		if u := pr.FuncResults[f].Unsupported; u != "" {
+			if removedHelper(f) {
+				undecided = append(undecided, f+"/supported")
+				fmt.Printf("UNDECIDED %s/supported (unexported helper no longer exists; its contract is not claimed, callers are verified with the code that replaced it)\n", f)
+				continue
+			}
 			violations++
 			r := &NamedResult{Name: f + "/supported", Kind: "supported", Status: "violated"}
 			rp := writeReplay(prop, r, u)
@@ -80,6 +122,11 @@ func cmdCheck(prop, tier string, keep bool) int {
 	}
 	for _, n := range baselineNames {
 		if !seen[n] {
+			if lenient(n) {
+				undecided = append(undecided, n+"/exists")
+				fmt.Printf("UNDECIDED %s/exists (belongs to the contract of an unexported helper that no longer exists)\n", n)
+				continue
+			}
 			violations++
 			r := &NamedResult{Name: n + "/exists", Kind: "exists", Status: "violated"}
 			rp := writeReplay(prop, r, "obligation of the accepted baseline is no longer generated")
@@ -238,4 +285,19 @@ func runSelftest(prop string) []map[string]interface{} {
 		out = append(out, rec)
 	}
 	return out
+}
+
+
+// qualifyShort maps the short callee name used in pre: labels ("(*limit.VegasLimit).shouldProbe",
+// "limiter.blockUntilSignaled") to the full function name used as key of p.fns / the contracts.
+func qualifyShort(p *Prog, short string) string {
+	if _, ok := p.specs.Funcs[short]; ok {
+		return short
+	}
+	for n := range p.specs.Funcs {
+		if shortName(n) == short {
+			return n
+		}
+	}
+	return short
 }
